@@ -2,7 +2,7 @@
 # usage: trypatch.sh <patch.diff> <property|all> [more properties]
 # Applies a patch to a scratch copy of /repo (never to /repo), runs the checker on it, removes the copy.
 set -u
-patch=$1; shift
+patch=$(realpath "$1"); shift
 bin=${GODICHECK:-/verif/bin/godicheck}
 d=$(mktemp -d /tmp/trypatch.XXXXXX)
 trap 'rm -rf "$d"' EXIT
